@@ -728,8 +728,8 @@ func (s *PathState) applyTemplateMode(call *ssa.Call, g *ssa.Function, t *PathSt
 		}
 	}
 	for v, x := range t.env {
-		if _, isParam := v.(*ssa.Parameter); isParam {
-			continue
+		if prm, isParam := v.(*ssa.Parameter); isParam && prm.Parent() == g {
+			continue // bound to the arguments above (the parameters of helpers nested inside g are translated like any value)
 		}
 		s.env[v] = tr(x)
 	}
